@@ -16,7 +16,7 @@ from concurrent.futures import ThreadPoolExecutor
 from pathlib import Path
 from typing import Any
 
-from common import SRC, CompResult, Violation, h
+from common import SRC, CompResult, Disagreement, Violation, h
 
 CONFTEST = r'''
 import json, os, warnings, pytest
@@ -64,6 +64,18 @@ def _verif_identity(request, worker_id, testrun_uid, tmp_path_factory):
         "env_count": os.environ.get("PYTEST_XDIST_WORKER_COUNT"), "env_uid": os.environ.get("PYTEST_XDIST_TESTRUNUID"),
         "fx_worker": worker_id, "fx_uid": testrun_uid, "basetemp": str(tmp_path_factory.getbasetemp()), "pid": os.getpid()})
     yield
+'''
+
+
+# a conftest.py below the root directory that pytest loads at start-up (`test*` directories of the invocation directory are
+# scanned for initial conftests): its reporting hook is one of the controller's reporting hooks
+SUB_CONFTEST = r'''
+import json, os
+REC = os.environ["VERIF_REC"]
+def pytest_runtest_logreport(report):
+    if not os.environ.get("PYTEST_XDIST_WORKER"):
+        with open(os.path.join(REC, "ctl-sub-%d.jsonl" % os.getpid()), "a") as f:
+            f.write(json.dumps({"k": "subreport", "side": "ctl", "nodeid": report.nodeid, "when": report.when, "outcome": report.outcome}) + "\n")
 '''
 
 
@@ -286,6 +298,13 @@ def check_against_inprocess(res: CompResult, dist: dict[str, Any], base: dict[st
             fire("report-longrepr-differs", f"{label}: {k} failure text differs")
         if r["node"] is None or r["worker_id"] != r["node"]:
             fire("report-untagged", f"{label}: {k} carries node={r['node']} worker_id={r['worker_id']}")
+    # every reporting hook the controller has loaded gets every report: the one of a conftest.py below the root directory too
+    if any(r["k"] == "subreport" for r in dist["records"]) or "tests_sub/conftest.py" in json.loads(ops[0]).get("files", {}):
+        sub = Counter((r["nodeid"], r["when"], r["outcome"]) for r in dist["records"] if r["k"] == "subreport")
+        top = Counter((r["nodeid"], r["when"], r["outcome"]) for r in dist["records"] if r["k"] == "report" and r["side"] == "ctl")
+        if sub != top:
+            fire("hook-below-rootdir-starved", f"{label}: the reporting hook of tests_sub/conftest.py (loaded at start-up) received {sum(sub.values())} "
+                 f"of the {sum(top.values())} reports the controller published")
     # per worker: the controller published the worker's reports in the order the worker produced them
     produced: dict[str, list] = {}
     for r in dist["records"]:
@@ -364,6 +383,9 @@ def e2e(tier: str, seed: int, what: str) -> CompResult:
         if what == "warnings" and si % 2 == 1:
             # a config-time warning in every worker, issued before its interactor exists ("No files were found in testpaths")
             files["pytest.ini"] = "[pytest]\ntestpaths = no_such_dir\n"
+        if what == "reports" and si % 2 == 1:
+            files["tests_sub/conftest.py"] = SUB_CONFTEST
+            files["tests_sub/test_sub.py"] = "def test_sub_a(): pass\n\ndef test_sub_b(): assert 0, 'sub failure'\n"
         write_suite(root, files)
         combos = [(rng.choice(modes[:5]), rng.choice([1, 2, 3]))] if tier == "quick" else [(m, rng.choice([1, 2, 4])) for m in rng.sample(modes[:5], 3)]
         if what == "crash-each":
@@ -452,3 +474,69 @@ def check_warnings(res: CompResult, dist: dict[str, Any], base: dict[str, Any], 
     if a != b:
         res.violations.append(Violation("C14", "e2e.warnings", f"{label}: warnings on the controller {sorted((a - b).elements())[:3]} extra, "
                                         f"{sorted((b - a).elements())[:3]} missing compared with a single-process run", "warnings-differ", ops, {}))
+
+
+# ----------------------------------------------------------------------------- the modelled worker against real workers
+WFIN_PLUGIN = r'''
+import json, os
+def pytest_sessionfinish(session, exitstatus):
+    if os.environ.get("PYTEST_XDIST_WORKER"):
+        with open(os.path.join(os.environ["VERIF_REC"], "wfin-%s-%d.jsonl" % (os.environ["PYTEST_XDIST_WORKER"], os.getpid())), "a") as f:
+            f.write(json.dumps({"k": "wfin", "worker": os.environ["PYTEST_XDIST_WORKER"], "exitstatus": int(exitstatus),
+                                "sf": bool(session.shouldfail), "ss": bool(session.shouldstop)}) + "\n")
+'''
+
+# scenario -> (files, arguments, what the simulated worker of sim.py (and `Sys.mainStep` of the Lean model) does in that situation):
+#   per worker that ran tests: "exit2=<session ended with exit status 2> sf=<shouldfail set> ss=<shouldstop set>", and the tests started
+WORKER_MODEL = {
+    # a collection error does not keep an xdist worker from running tests (sim.py: `collect` -> `loop0`; MainP.collect interrupt=false)
+    "collect-error": ({"test_ok.py": "def test_a(): pass\n\ndef test_b(): pass\n", "test_bad.py": "import no_such_module_xyz\n\ndef test_c(): pass\n"},
+                      ["-n2"], ["exit2=0 sf=0 ss=0"], ["test_a", "test_b"]),
+    # pytest.exit() inside a test: exit status 2, no completion event, nothing of this worker's queue runs afterwards (sim.py kind "exit")
+    "exit-in-test": ({"test_e.py": "import pytest\n\ndef test_a(): pass\n\ndef test_b():\n    pytest.exit('bye')\n\ndef test_c(): pass\n\ndef test_d(): pass\n"},
+                     ["-n1"], ["exit2=1 sf=0 ss=0"], ["test_a", "test_b"]),
+    # session.shouldstop set by a test: the worker leaves its loop after that test and says so (sim.py kind "stop")
+    "shouldstop-in-test": ({"test_s.py": "def test_a(): pass\n\ndef test_b(request):\n    request.session.shouldstop = 'plugin asked to stop'\n\n"
+                                         "def test_c(): pass\n\ndef test_d(): pass\n"},
+                           ["-n1"], ["exit2=0 sf=0 ss=1"], ["test_a", "test_b"]),
+    # the worker counts its own failures against --maxfail and leaves its loop (sim.py `worker_maxfail`)
+    "maxfail-in-worker": ({"test_x.py": "def test_a(): assert 0\n\ndef test_b(): pass\n\ndef test_c(): pass\n\ndef test_d(): pass\n"},
+                          ["-n1", "-x"], ["exit2=0 sf=1 ss=0"], ["test_a"]),
+}
+
+
+def worker_model(tier: str, seed: int) -> CompResult:
+    """The life cycle of a worker process is *modelled* (sim.py's worker, `Sys.mainStep`): pytest core decides it, not xdist.
+    These real runs check the modelled behaviour against real workers; a difference is a broken correspondence of the model
+    (it was one once: DESIGN 12.17), not by itself a violation."""
+    res = CompResult(component="e2e.worker-model")
+    res.rule = "real `pytest -n` runs of fixed suites; per worker that ran tests: exit status 2?, shouldfail?, shouldstop?, and the tests it started"
+    scratch = Path(os.environ.get("VERIF_SCRATCH", "/tmp")) / "e2e-worker-model"
+    shutil.rmtree(scratch, ignore_errors=True)
+
+    def one(name: str) -> tuple:
+        files, args, exp_w, exp_ran = WORKER_MODEL[name]
+        root = scratch / name
+        write_suite(root, dict(files))
+        (root / "wfin_plugin.py").write_text(WFIN_PLUGIN)
+        d = run_pytest(root, ["-p", "wfin_plugin", *args], name)
+        ran_by = {r["worker"] for r in d["records"] if r["k"] == "proto" and r.get("worker")}
+        obs_w = sorted({f"exit2={int(r['exitstatus'] == 2)} sf={int(r['sf'])} ss={int(r['ss'])}" for r in d["records"] if r["k"] == "wfin" and r["worker"] in ran_by})
+        obs_ran = sorted({r["item"].split("::")[-1] for r in d["records"] if r["k"] == "proto"})
+        return name, files, args, sorted(set(exp_w)), exp_ran, obs_w, obs_ran, d
+
+    with ThreadPoolExecutor(max_workers=4) as ex:
+        results = list(ex.map(one, WORKER_MODEL))
+    for name, files, args, exp_w, exp_ran, obs_w, obs_ran, d in results:
+        res.evaluations += 1
+        res.hit(f"scenario:{name}")
+        res.distinct.add(h((name, obs_w, obs_ran)))
+        model = [f"workers {' | '.join(exp_w) or '-'}", f"ran {','.join(exp_ran)}"]
+        impl = [f"workers {' | '.join(obs_w) or '-'}", f"ran {','.join(obs_ran)}"]
+        if model != impl:
+            at = 0 if model[0] != impl[0] else 1
+            res.disagreements.append(Disagreement("e2e.worker-model", [json.dumps({"scenario": name, "files": files, "args": args})], model, impl, at,
+                                                  f"real workers behave differently from the modelled worker in scenario {name!r}: {d['out'][-300:]}"))
+        res.traces_validated += 1
+    shutil.rmtree(scratch, ignore_errors=True)
+    return res
